@@ -172,6 +172,8 @@ def methods : Methods := fun ty name =>
 def hex16 (n : Nat) : String :=
   String.ofList ((List.range 16).reverse.map (fun i => P2.hexDigitChar ((n / 16 ^ i) % 16)))
 
+/-- entries are (key, canonical value text); sorted by the key itself (code-point order = Go's byte
+order on valid UTF-8), as `canonValue` does on the Go side -/
 def insertSorted (kv : String × String) : List (String × String) → List (String × String)
   | [] => [kv]
   | x :: xs => if kv.1 ≤ x.1 then kv :: x :: xs else x :: insertSorted kv xs
@@ -191,7 +193,7 @@ def canon (ap : Apply) : Nat → Val → R String
   | k+1, .map kvs => do
       let ss ← canonKVs ap k kvs
       let sorted := ss.foldr insertSorted []
-      pure ("M{" ++ ",".intercalate (sorted.map (fun kv => kv.1 ++ "=" ++ kv.2)) ++ "}")
+      pure ("M{" ++ ",".intercalate (sorted.map (fun kv => showChars kv.1.toList ++ "=" ++ kv.2)) ++ "}")
   | _+1, .sclos names _ _ _ _ => .ok s!"C{names.length}"
   | _+1, .rclos n _ _ _ => .ok s!"C{n}"
 def canons (ap : Apply) : Nat → List Val → R (List String)
@@ -207,7 +209,7 @@ def canonKVs (ap : Apply) : Nat → List (String × Val) → R (List (String × 
   | k+1, (key, v) :: vs => do
       let s ← canon ap k v
       let ss ← canonKVs ap k vs
-      pure ((showChars key.toList, s) :: ss)
+      pure ((key, s) :: ss)
 end
 
 def showOutcome (ap : Apply) (fuel : Nat) : R Val → String
